@@ -711,6 +711,27 @@ var supCorpus = []SupScenario{
 	// a runnable fails while the supervisor waits at a later gate
 	{Mocks: []MockSpec{{Caps: "0000", Stop: "f", RunMode: 1, RunMs: 8, Outcome: "e"}, {Caps: "1000", Stop: "f", Outcome: "n", ReadyPolls: -1}, {Caps: "0000", Stop: "f", Outcome: "n"}},
 		StartupInitMs: 1, StartupTimeout: 200, ShutdownMs: 1000, WB: true},
+	// a runnable fails between two polls of a later gate, and the gating runnable is ready at the next poll:
+	// the failure must end the gate at once and nothing later may start
+	// (the gate polls three times at startupInitial, then twice at 3x, 7x, ...: ready at the fourth poll = 30 ms)
+	{Mocks: []MockSpec{{Caps: "0000", Stop: "f", RunMode: 1, RunMs: 18, Outcome: "e"}, {Caps: "1000", Stop: "f", Outcome: "n", ReadyPolls: 3}, {Caps: "0000", Stop: "f", Outcome: "n"}},
+		StartupInitMs: 10, StartupTimeout: 300, ShutdownMs: 1000, WB: true},
+	{Mocks: []MockSpec{{Caps: "1000", Stop: "f", RunMode: 1, RunMs: 36, Outcome: "e", ReadyPolls: 0}, {Caps: "1100", Stop: "f", Outcome: "n", ReadyPolls: 3}, {Caps: "0100", Stop: "f", Outcome: "n"}},
+		StartupInitMs: 12, StartupTimeout: 300, ShutdownMs: 1000, WB: true},
+	// a reload trigger still pending (the manager is inside a slow pass) when shutdown begins: must stay prompt.
+	// The manager's select between the pending request and the cancelled context is a coin flip, hence the copies
+	{Mocks: []MockSpec{{Caps: "0110", Stop: "f", Outcome: "n", ReloadMs: 10}}, Triggers: []Trigger{{AtMs: 10, Kind: "hup"}, {AtMs: 13, Kind: "rtrig:0"}, {AtMs: 16, Kind: "term"}},
+		StartupInitMs: 1, StartupTimeout: 100, ShutdownMs: 400, WB: true},
+	{Mocks: []MockSpec{{Caps: "0110", Stop: "f", Outcome: "n", ReloadMs: 10}}, Triggers: []Trigger{{AtMs: 10, Kind: "hup"}, {AtMs: 13, Kind: "rtrig:0"}, {AtMs: 16, Kind: "int"}},
+		StartupInitMs: 1, StartupTimeout: 100, ShutdownMs: 400, WB: true},
+	{Mocks: []MockSpec{{Caps: "0110", Stop: "f", Outcome: "n", ReloadMs: 10}, {Caps: "1000", Stop: "f", Outcome: "n"}}, Triggers: []Trigger{{AtMs: 12, Kind: "hup"}, {AtMs: 15, Kind: "rtrig:0"}, {AtMs: 18, Kind: "cancel"}},
+		StartupInitMs: 1, StartupTimeout: 100, ShutdownMs: 400, WB: true},
+	{Mocks: []MockSpec{{Caps: "0110", Stop: "f", Outcome: "n", ReloadMs: 10}}, Triggers: []Trigger{{AtMs: 10, Kind: "reloadall"}, {AtMs: 13, Kind: "rtrig:0"}, {AtMs: 16, Kind: "user"}},
+		StartupInitMs: 1, StartupTimeout: 100, ShutdownMs: 400, WB: true},
+	{Mocks: []MockSpec{{Caps: "0110", Stop: "f", Outcome: "n", ReloadMs: 10}}, Triggers: []Trigger{{AtMs: 10, Kind: "hup"}, {AtMs: 13, Kind: "rtrig:0"}, {AtMs: 17, Kind: "term"}},
+		StartupInitMs: 1, StartupTimeout: 100, ShutdownMs: 400, WB: true},
+	{Mocks: []MockSpec{{Caps: "1110", Stop: "l", Outcome: "n", ReloadMs: 10}}, Triggers: []Trigger{{AtMs: 10, Kind: "hup"}, {AtMs: 13, Kind: "rtrig:0"}, {AtMs: 16, Kind: "term"}},
+		StartupInitMs: 1, StartupTimeout: 100, ShutdownMs: 400, WB: true},
 	// two concurrent Shutdown() callers while running
 	{Mocks: []MockSpec{{Caps: "0000", Stop: "f", StopMs: 5, Outcome: "n"}, {Caps: "1100", Stop: "l", Outcome: "c", ReadyPolls: 1}}, Triggers: []Trigger{{AtMs: 30, Kind: "user"}, {AtMs: 30, Kind: "user"}, {AtMs: 31, Kind: "int"}},
 		StartupInitMs: 1, StartupTimeout: 100, ShutdownMs: 1000, WB: true},
